@@ -1,8 +1,8 @@
 //! Defines parser functions related to character input.
 
 use winnow::{
-    ascii::line_ending,
-    combinator::{alt, delimited, eof, trace},
+    ascii::{line_ending, space1},
+    combinator::{alt, delimited, eof, peek, repeat, terminated, trace},
     error::ParserError,
     stream::{AsChar, Compare, Stream, StreamIsPartial},
     token::{one_of, take_till, take_while},
@@ -56,6 +56,26 @@ where
     trace("character::newlines", take_while(0.., b"\r\n")).parse_next(input)
 }
 
+/// Consumes all vertical spaces: line endings, and lines made only of spaces or tabs.
+pub fn vertical_spaces<I, E>(input: &mut I) -> winnow::Result<(), E>
+where
+    I: Stream + StreamIsPartial + winnow::stream::Compare<&'static str>,
+    <I as Stream>::Token: AsChar + Clone,
+    E: ParserError<I>,
+{
+    trace(
+        "character::vertical_spaces",
+        repeat(
+            0..,
+            alt((
+                take_while(1.., b"\r\n").void(),
+                terminated(space1, peek(line_ending_or_eof)).void(),
+            )),
+        ),
+    )
+    .parse_next(input)
+}
+
 /// Parses unnested string in paren.
 pub fn paren_str<I, E>(input: &mut I) -> winnow::Result<<I as Stream>::Slice, E>
 where
@@ -101,6 +121,16 @@ mod tests {
             expect_parse_ok(line_ending_or_semi, "\r\n;remain"),
             (";remain", "\r\n")
         );
+    }
+
+    #[test]
+    fn vertical_spaces_consumes_blank_lines() {
+        assert_eq!(
+            expect_parse_ok(vertical_spaces, "\n \t\r\n\n  \n  foo"),
+            ("  foo", ())
+        );
+        assert_eq!(expect_parse_ok(vertical_spaces, "\n  "), ("", ()));
+        assert_eq!(expect_parse_ok(vertical_spaces, "foo"), ("foo", ()));
     }
 
     #[test]
